@@ -11,6 +11,8 @@ pub enum Body {
     /// bytes that are not valid UTF-8, hex encoded
     Hex(String),
     Dir,
+    /// a symbolic link (real file system only, e.g. to /dev/full)
+    Symlink(String),
 }
 
 impl Body {
@@ -22,7 +24,7 @@ impl Body {
                     .map(|i| u8::from_str_radix(&h[2 * i..2 * i + 2], 16).unwrap_or(0))
                     .collect(),
             ),
-            Body::Dir => None,
+            Body::Dir | Body::Symlink(_) => None,
         }
     }
     pub fn from_bytes(bytes: &[u8]) -> Body {
@@ -64,13 +66,16 @@ pub struct OptSpec {
 pub enum Backend {
     SimFs,
     Memory,
+    /// tier B: real file system (tmpfs scratch directory) and the real darklua binary
+    RealFs,
 }
 
 pub fn populate(fs: &SimFs, entries: &[FsEntry]) {
     for entry in entries {
-        match entry.body.bytes() {
-            Some(bytes) => fs.user_write(&entry.path, &bytes),
-            None => fs.user_mkdir(&entry.path),
+        match &entry.body {
+            Body::Dir => fs.user_mkdir(&entry.path),
+            Body::Symlink(_) => {}
+            other => fs.user_write(&entry.path, &other.bytes().unwrap_or_default()),
         }
     }
 }
